@@ -430,7 +430,7 @@ def plan_C07(tier, seed):
     import re
     # every layout feature must have been drawn
     for f in ["multi_blank_between_tokens", "tab_separator", "trailing_blanks", "leading_blanks", "blank_line_before_header",
-              "blank_line_between_clauses", "blank_line_inside_clause", "comment_before_header", "comment_between_clauses",
+              "blank_line_between_clauses", "blank_line_inside_clause", "crlf_blank_line_inside_clause", "comment_before_header", "comment_between_clauses",
               "comment_inside_clause", "clause_split_over_lines", "crlf", "no_final_newline", "leading_zeros",
               "minus_zero_terminator", "comment_with_cr_or_digits", "split_after_weight_or_group", "empty_comment",
               "blank_only_line_with_spaces", "final_blanks_no_newline", "comment_with_non_ascii_bytes",
